@@ -12,9 +12,11 @@ import hashlib, os, re, sys
 
 REPO = os.environ.get("VERIF_REPO", "/repo")
 OUT = os.path.join(os.path.dirname(os.path.abspath(__file__)), "..", "lean", "PasskeyVerif", "Generated")
-FILES = ["webauthn/assertion.rs", "webauthn/attestation.rs", "webauthn/common.rs", "webauthn/extensions/mod.rs",
-         "webauthn/extensions/pseudo_random_function.rs"]
+FILES = ["webauthn.rs", "webauthn/assertion.rs", "webauthn/attestation.rs", "webauthn/common.rs", "webauthn/extensions/mod.rs",
+         "webauthn/extensions/pseudo_random_function.rs", "webauthn/extensions/credential_properties.rs"]
 ROOTS = ["CredentialRequestOptions", "CredentialCreationOptions"]
+# the credentials the client emits: the one generic struct, instantiated with each response type
+GENERIC_ROOTS = [("PublicKeyCredential", "AuthenticatorAttestationResponse"), ("PublicKeyCredential", "AuthenticatorAssertionResponse")]
 
 
 class TranslatorError(Exception):
@@ -149,6 +151,8 @@ def ty_of(t, structs, enums):
         return ".bool"
     if t == "u32":
         return ".u32"
+    if t == "i64":
+        return ".i64"
     if t == "iana::Algorithm":
         return ".alg"
     if t in structs:
@@ -179,19 +183,32 @@ def main():
             body = src[m.end():i - 1]
             cattrs, _ = attrs_of(m.group(1))
             (structs if kind == "struct" else enums)[name] = (cattrs, body, generics, rel)
-    # reachable set
-    todo, seen = list(ROOTS), []
-    while todo:
-        n = todo.pop(0)
-        if n in seen:
-            continue
-        if n not in structs and n not in enums:
-            continue
-        seen.append(n)
-        if n in structs:
-            for w in referenced(structs[n][1]):
-                if (w in structs or w in enums) and w not in seen:
-                    todo.append(w)
+    # the generic credential struct, once per response type (its one type parameter substituted)
+    for gname, arg in GENERIC_ROOTS:
+        if gname not in structs or arg not in structs:
+            raise TranslatorError("generic root %s<%s> not found" % (gname, arg))
+        cattrs, body, generics, rel = structs[gname]
+        gm = re.match(r"<\s*(\w+)\s*(?::[^>]*)?>$", generics or "")
+        if not gm:
+            raise TranslatorError("generic parameters of %s not understood: %r" % (gname, generics))
+        param = gm.group(1)
+        inst = "%s<%s>" % (gname, arg)
+        structs[inst] = (cattrs, re.sub(r"\b%s\b" % param, arg, body), None, rel)
+    # reachable set: the closure of each root in turn (the option structs keep their places when roots are added)
+    seen = []
+    for root in list(ROOTS) + ["%s<%s>" % g for g in GENERIC_ROOTS]:
+        todo = [root]
+        while todo:
+            n = todo.pop(0)
+            if n in seen:
+                continue
+            if n not in structs and n not in enums:
+                continue
+            seen.append(n)
+            if n in structs:
+                for w in referenced(structs[n][1]):
+                    if (w in structs or w in enums) and w not in seen:
+                        todo.append(w)
     for r in ROOTS:
         if r not in structs:
             raise TranslatorError("root struct %s not found" % r)
@@ -202,8 +219,8 @@ def main():
             if generics:
                 raise TranslatorError("generic struct %s reachable from the options: not understood" % n)
             derives = " ".join(inner for name, inner in cattrs if name == "derive")
-            if "Deserialize" not in derives:
-                raise TranslatorError("struct %s does not derive Deserialize" % n)
+            if "Deserialize" not in derives or "Serialize" not in derives.replace("Deserialize", ""):
+                raise TranslatorError("struct %s does not derive both Serialize and Deserialize" % n)
             cargs = serde_args(cattrs)
             for k in cargs:
                 if k not in KNOWN_CONTAINER_ARGS:
@@ -224,15 +241,20 @@ def main():
                 if helper is not None and helper not in WRAPS:
                     raise TranslatorError("deserialize helper %s on %s.%s not understood" % (helper, n, fname))
                 wrap = WRAPS[helper] if helper else ".plain"
-                fields.append("    ⟨%s, %s, [%s], %s, %s, %s⟩" % (lean_str(fname), lean_str(json), ", ".join(lean_str(x) for x in a.get("alias", [])),
-                                                              ty_of(ftype, structs, enums), "true" if a.get("default") else "false", wrap))
+                skip = a.get("skip_serializing_if")
+                if skip not in (None, "Option::is_none"):
+                    raise TranslatorError("skip_serializing_if = %r on %s.%s not understood" % (skip, n, fname))
+                if a.get("serialize_with"):
+                    raise TranslatorError("serialize_with on %s.%s not understood" % (n, fname))
+                fields.append("    ⟨%s, %s, [%s], %s, %s, %s, %s⟩" % (lean_str(fname), lean_str(json), ", ".join(lean_str(x) for x in a.get("alias", [])),
+                                                                  ty_of(ftype, structs, enums), "true" if a.get("default") else "false", wrap, "true" if skip else "false"))
             has_default = "Default" in derives
             struct_lines.append("  ⟨%s, %s, [\n%s]⟩" % (lean_str(n), "true" if has_default else "false", ",\n".join(fields)))
         else:
             cattrs, body, generics, rel = enums[n]
             derives = " ".join(inner for name, inner in cattrs if name == "derive")
-            if "Deserialize" not in derives:
-                raise TranslatorError("enum %s does not derive Deserialize" % n)
+            if "Deserialize" not in derives or "Serialize" not in derives.replace("Deserialize", ""):
+                raise TranslatorError("enum %s does not derive both Serialize and Deserialize" % n)
             cargs = serde_args(cattrs)
             for k in cargs:
                 if k not in KNOWN_CONTAINER_ARGS:
@@ -259,7 +281,7 @@ def main():
         for k in sorted(hashes):
             f.write("   %s sha256 %s\n" % (k, hashes[k]))
         f.write("-/\nimport PasskeyVerif.Model.SerdeTypes\nnamespace PasskeyVerif.Generated.Webauthn\nopen PasskeyVerif.Serde\n\n")
-        f.write("/-- the option structs reachable from CredentialRequestOptions / CredentialCreationOptions: name, derives Default,\nmembers (rust name, JSON name, aliases, type, `default`, deserialize helper) in declaration order -/\n")
+        f.write("/-- the structs reachable from CredentialRequestOptions / CredentialCreationOptions and from the emitted credentials: name, derives Default,\nmembers (rust name, JSON name, aliases, type, `default`, deserialize helper, skipped when None) in declaration order;\nthe last two structs are the emitted credential `PublicKeyCredential<R>` with R each of the two response types -/\n")
         f.write("def structs : List StructDef := [\n%s]\n\n" % ",\n".join(struct_lines))
         f.write("/-- the enumerations among their members: JSON names of the variants (with aliases) and the `#[default]` one -/\n")
         f.write("def enums : List EnumDef := [\n%s]\n\n" % ",\n".join(enum_lines))
